@@ -14,7 +14,7 @@ CLAIMED = {
             "Seeded search over entry multisets, per-replica permutations with duplicates, ingress paths (local / remote / in-message), clean restarts, flushes and age-commit placements against the RefDoc reference model: every offer result and every dumped state (author-ordered query, key-ordered query and a point lookup of every held entry) must equal the model, and all replicas must agree with join(E); unrelated operations in between (writes to and removal of other documents, a policy, a peer registration, a read, a read-only capability import) must change nothing. The stores also hold neighbour documents (smaller and larger ids, ids ending in 0xFF) that take writes in between and must stay untouched. Exploration is the right level: the space of orders is unbounded, the model is tiny and exact.",
             "Trusted: redb, ed25519 (deterministic signatures), postcard; entries with equal (timestamp, hash) but different length are outside the generator. A second batch (offer-large) offers two replicas 130-600 entries of one author under one prefix plus parents, markers and a second author, each in its own order; one run in twelve of the small batch uses 6-27 authors.", "5 C02"),
     "C13": ("exploration", TECH,
-            "Same histories as C02 (older entries after newer ones, duplicates, restarts, age-commits); at check points the reported heads must equal the greatest held timestamp per author and has_news_for_us must equal the brute-force count; plus encode/decode of head sets of up to 320 authors under size limits placed at, one below and one above item boundaries (pure part, labelled).",
+            "Same histories as C02 (older entries after newer ones, duplicates, restarts, age-commits, the document removed and created again), plus unclean crashes (the model then follows what the reopened replica holds) and reopens from a file without the head table / by-key index (the heads of the neighbour documents are checked as well); at check points the reported heads must equal the greatest held timestamp per author and has_news_for_us must equal the brute-force count; plus encode/decode of head sets of up to 320 authors under size limits placed at, one below and one above item boundaries (pure part, labelled).",
             "Head key is not checked (the statement does not constrain it). Limits below the 1-byte minimum encoding are not generated.", "5 C13"),
 }
 
@@ -23,10 +23,10 @@ CLAIMED.update({
             "Two real replicas (redb in-memory / SimDisk / file) are filled to reachable states and run one complete session through a serialise/deserialise hop, for both initiators, split_factor 2-8, max_set_size 1-8 and age-commit placements inside message processing; half of the runs with keys of one length so that the surviving sets are large enough to split ranges, a third with the shipped configuration; oracles: bounded message count, both sides equal join(A0 u B0) from RefDoc, mirrored sent/received counts, silent second session.",
             "The decisive batch has at most 24 entries per side; a second batch (pair-large) runs 30-250 entries per side with fixed-length keys (600 runs quick, 30000 thorough). One run in twelve of the small batch uses 6-27 authors.", "5 C01"),
     "C03": ("exploration", TECH,
-            "An adversarial transport corrupts honest entries in flight (bit flips in every field and both signatures, swapped/transplanted/foreign signatures, foreign namespace, non-curve ids, empty/len mismatch, short identifiers, one signature copied over the other, new content forged under another author's id by a holder of the document secret, a valid entry of a different document, timestamps at bound-1/bound/bound+1 us with the replica's clock skewed accordingly, and honestly signed entries a year, 2^63 us and u64::MAX ahead; the receiving store may own the author keys or hold the document read-only) and delivers each alone and at a random position of a reconciliation message next to valid entries, through the real store actor with subscribers; nothing forged may be stored, acknowledged or announced, the rest of the message must be applied, indexes and heads must stay consistent.",
+            "An adversarial transport corrupts honest entries in flight (bit flips in every field and both signatures, swapped/transplanted/foreign signatures, foreign namespace, non-curve ids, empty/len mismatch, short identifiers, one signature copied over the other, new content forged under another author's id by a holder of the document secret, a valid entry of a different document, timestamps at bound-1/bound/bound+1 us with the replica's clock skewed accordingly, honestly signed entries a year, 2^63 us and u64::MAX ahead, an identifier naming another document with both signatures made by the attacked document's own secret, and an entry beyond the bound delivered after an honest entry exactly at the bound was accepted; the receiving store may own the author keys or hold the document read-only) and delivers each alone and at a random position of a reconciliation message next to valid entries, through the real store actor with subscribers; nothing forged may be stored, acknowledged or announced, the rest of the message must be applied, indexes and heads must stay consistent.",
             "Forgeries are mutations of honest entries; ed25519 itself is trusted.", "5 C03"),
     "C05": ("exploration", TECH,
-            "Random queries (kind x author filter x key filter x sort x direction x include-empty x offset x limit, with the builder calls made in a plan-chosen order, plus point lookups) over stores with up to 4 documents, one of which may be removed and re-created in between, against states reached through pruning histories (stale index rows), clean restarts and derived-index rebuilds, compared with a brute-force evaluator over the RefDoc model. The simulator contributes the states; the decisive dimension for the query itself is input generation, which the evidence says. A second batch (query-large) fills documents with 150-1100 entries and draws offsets and limits from {0,1,2,100,255,256,257,511,512,1000,1023,1024,1025,n-1,n,n+1,n/2}.",
+            "Random queries (kind x author filter x key filter x sort x direction x include-empty x offset x limit, with the builder calls made in a plan-chosen order, plus point lookups) over stores with up to 4 documents, one of which may be removed and re-created in between, with other reads (lists, content hashes, heads, flush, peers, policy) and refused operations (removal of an open document, settings for a missing document) in between, against states reached through pruning histories (stale index rows), clean restarts and derived-index rebuilds, compared with a brute-force evaluator over the RefDoc model. The simulator contributes the states; the decisive dimension for the query itself is input generation, which the evidence says. A second batch (query-large) fills documents with 150-1100 entries and draws offsets and limits from {0,1,2,100,255,256,257,511,512,1000,1023,1024,1025,n-1,n,n+1,n/2}.",
             "Latest-per-key with an author filter: documentation and code disagree on filter-before/after grouping and the statement is silent, so either reading is accepted for that one combination; ties in timestamp accept any tied entry.", "5 C05"),
     "C07": ("exploration", TECH,
             "Histories of read/write capability imports (right and other documents), local/remote/in-message writes, open/close, clean restarts, flush+crash restarts and removal over 2-4 documents against the RefStore model: local writes succeed iff the model capability is Write, remote entries are accepted regardless, the listed capability never downgrades and never changes for another document. A second batch drives the real store actor with imports while documents are open (the actor keeps its own in-memory copy of the capability) and judges the replies to writes, deletions, secret export and imports.",
@@ -51,7 +51,7 @@ CLAIMED.update({
 CLAIMED.update({
     "C04": ("exploration", TECH,
             "2-5 nodes (SimDisk + store + real store actor, per-node skewed wall clock) take local writes and deletions; every local insert is broadcast through SimNet (deliver in any order, drop, duplicate, partition/heal) and applied by the remote-insert path as gossip::receive_loop does; sessions between pairs run over SimPipes frame by frame and are cut (EOF/reset) at any frame; nodes restart through an orderly shutdown, by dropping the actor without a shutdown (only the store's destructor runs) or by a crash (L1/L2); in half of the runs nodes first write dozens of keys whose broadcasts are all lost, and one node may hold the document read-only (a relay). Then faults stop and complete sessions along a random spanning tree must reach a silent round within nodes+1 rounds, with all nodes equal to the merge of what they held; without crashes also equal to the merge of all acknowledged local writes; no node ever holds an entry nobody wrote. A second batch runs the same histories with clock skew far beyond the future bound and judges the safety oracles only.",
-            "iroh-gossip delivery and QUIC are stubbed; the live actor's dial decisions are C11's subject. Clock skew is kept within the future bound (4 min).", "5 C04"),
+            "iroh-gossip delivery and QUIC are stubbed; the live actor's dial decisions are C11's subject. Clock skew is kept within the future bound (4 min). Acknowledged writes are predicted from the requests (an accepted deletion is a marker whether or not it found anything), not learned from the nodes; in runs with crashes every write acknowledged by a node after its last unclean crash must still be accounted for. Every node runs with a content-status callback and every remote-insert event is checked.", "5 C04"),
     "C06": ("fault_enumeration", "deterministic simulation: per sampled history complete enumeration of crash points x loss models x age-commit placements on SimDisk, reference-model oracle",
             "For each sampled history on a persistent store the simulator enumerates every crash point (after every backend write / set_len / sync) under loss models L1 and L2 for every single placement of the age-based auto-commit at each internal store call of each operation (operations: capability import, offers on three paths, multi-entry messages, policies, peer registrations, removal, flush, and every read path: queries, lists, point lookups, heads, peers, policy, author key, content hashes) (thorough: sampled L3/torn images, EIO/ENOSPC, more double placements); each reopened image must open, equal a state the live store passed through between two complete operations not older than the last flush/read, and have consistent lookups, query paths and heads. A second batch (actor-crash, exploration) drives the real store actor on a SimDisk (pipelined requests from several clients, flush requests, the 500 ms flush timer, reads that commit) and kills it at a plan-chosen instant with or without letting it drain its inbox: the reopened image (all writes / synced writes only) must equal the state after some whole request not older than the last acknowledged flush.",
             "redb's commit protocol and recovery are trusted (crashes during the two writes that create the database are excluded). The histories themselves are sampled; the per-history crash x placement space is exhaustive. A third batch (crash-long) runs histories of 60-220 operations that hardly ever commit, so that hundreds of modifications pile up in one transaction, with every crash point x loss model judged and age-commit placements sampled. One short history in forty also enumerates the crash points of the very first open of a new database: every image that plain redb accepts must open as the empty store.", "5 C06"),
@@ -59,16 +59,16 @@ CLAIMED.update({
             "Stream part: real protocol messages are framed by the real codec and reach the real frame reader through a SimPipe under plan-chosen release sizes and read chunks, truncation after any byte, single-byte corruption, oversized and understated length prefixes: clean streams must decode to the input, truncated ones to a prefix followed by end or error, oversized prefixes to an error or need-more-data, a frame whose prefix understates its payload to an error, never a bogus message or a panic. Pure part (labelled, not simulation): round trips and hostile bytes for signed entries, author heads, tickets, capabilities, filters, policies; the three pinned encodings are recomputed.",
             "Frames are produced as the sessions produce them (one FramedWrite::send per message). One stream in 2500 carries a message of 70 KB - 24 MiB (far below the frame size limit) and must round-trip.", "5 C09"),
     "C10": ("exploration", TECH,
-            "The initiating or accepting side runs against a real local store actor over SimPipes; the other side is the real counterpart or a scripted peer sending up to 6 frames over {Init known/unknown (a third of them already carrying entries), Sync, made-up ranges, Abort, garbage, oversized, truncated} then close; streams are chunked and cut (EOF/reset) after any byte in either direction, or inside the k-th frame just after its length prefix / just before its end (a stream that ends or is reset strictly inside a frame must be reported as an error); the local replica is closed, sync-disabled or its actor shut down before any delivered frame; the accept callback allows or declines. Oracles: no panic (including collecting the acceptor's outcome), termination once nothing is in flight, protocol-violating frames make the session fail, a declined request sends Abort and leaves the store unchanged, mutual success has mirrored counts.",
+            "The initiating or accepting side runs against a real local store actor over SimPipes; the other side is the real counterpart or a scripted peer sending up to 6 frames over {Init known/unknown (a third of them already carrying entries), Sync, made-up ranges, Abort, garbage, oversized, truncated} then close; streams are chunked and cut (EOF/reset) after any byte in either direction, or inside the k-th frame just after its length prefix / just before its end (a stream that ends or is reset strictly inside a frame must be reported as an error); the local replica is closed, sync-disabled or its actor shut down (awaited, queued ahead of the session's next request, or queued behind another client's waiting request) before any delivered frame; the accept callback allows or declines. Oracles: no panic (including collecting the acceptor's outcome), once the accept callback has allowed a session the acceptor names that document with its outcome however the session ends, termination once nothing is in flight, protocol-violating frames make the session fail, a declined request sends Abort and leaves the store unchanged, mutual success has mirrored counts.",
             "Mirrored counts are only demanded when no stream cut fired (a transport that accepts bytes, drops them and then signals a clean end cannot be detected by either end of this protocol). A second batch (session-enum) is an enumeration, not a sample: every combination of side x accept outcome x local fault (none or one of four kinds before frame 0-2) x scripted peer of up to 2 (thorough: 3) frames over 13 representative frames.", "5 C10"),
     "C11": ("exploration", TECH,
             "Two or three real LiveActors (real store actors; Endpoint/Gossip/blob store constructed but idle) in any id order that sync one or two documents, every (document, pair) being a lane with its own oracles while the other lanes carry traffic; a guarded dial seam hands every dial to the driver which decides delivery, loss or breakage of each request, delivery or loss of declines, and independent ok/failed completion of both ends of each session, plus neighbour-up and sync-report events; safety after every step (no two sessions in progress, exactly one accept on a mutual simultaneous dial, exactly one follow-up dial after a refused news report, NotFound for unknown documents, for documents held but not synced, for documents the node has left, and after a failed start) and progress at quiescence (both idle, able to dial and to accept). A second batch (coord-real) runs every dial as the real run_alice and every delivered request as the real BobState::run + into_outcome over SimPipes that the driver releases frame by frame, cuts or resets, while in a third of the runs a replica is closed or has its sync switch flipped underneath its live actor.",
             "Connection handling of connect_and_sync / handle_connection is replaced by the seam (in coord the session results are synthetic, in coord-real they come from the real wire sessions). Changing which documents are syncing mid-session is outside the property's quantifier.", "5 C11"),
     "C12": ("exploration", TECH,
-            "One real store actor with 0-4 subscribers (channel capacities 1-32) that the driver drains, pauses, unsubscribes or drops at plan-chosen instants (also while the actor is blocked sending to them); local inserts/deletions, valid/superseded/badly signed remote inserts, reconciliation messages interleaved with local writes, policy changes; in half of the runs a neighbouring document of the same store with its own subscriber and policy takes writes and policy changes in between; capability imports on the open document (which may start read-only), additional handles opened and released, the sync switch; every subscriber must have received exactly the applied entries, once, in application order, with the right variant, peer, content status and download flag.",
-            "A subscriber that never drains is outside the documented contract and is not injected (paused ones are resumed when the actor blocks on them).", "5 C12"),
+            "One real store actor with 0-4 subscribers (channel capacities 1-32) that the driver drains, pauses, unsubscribes or drops at plan-chosen instants (also while the actor is blocked sending to them); local inserts/deletions, valid/superseded/badly signed remote inserts, reconciliation messages interleaved with local writes, policy changes; in half of the runs a neighbouring document of the same store with its own subscriber and policy takes writes and policy changes in between; a third document may share a subscriber's channel and then be closed completely; capability imports on the open document (which may start read-only), additional handles opened and released, the sync switch; every subscriber must have received exactly the applied entries, once, in application order, with the right variant, peer, content status and download flag.",
+            "A subscriber that never drains is outside the documented contract and is not injected (paused ones are resumed when the actor blocks on them). A second batch (swarm-events) runs the swarm histories - real sessions between nodes that have a content-status callback installed - and checks every remote-insert event for document, provider, the provider's content status and the download flag.", "5 C12"),
     "C14": ("exploration", TECH,
-            "1-3 clients pipeline 6-60 requests into one real store actor (its unchanged run loop polled on the simulator's paused runtime); every reply is compared with a sequential model applied in send order: handle counting, close result, gates for not-open / sync-off / read-only, sticky sync, FIFO visibility, get-many snapshots consumed after later writes, shutdown returning a store (and a disk image) with every acknowledged write; the model also predicts get_state (handles, sync, subscriber count), set/get download policy, register/list useful peers, has-news, the lists of documents and authors, the content-hash report and author-key import/export/delete (a local write needs its author's key); documents may start read-only; a third of the disk-backed runs end in a crash judged against per-request snapshots; faults: reply receivers dropped before the answer, streams dropped, flush timer firing between batches, shutdown with requests queued behind it.",
+            "1-3 clients pipeline 6-60 requests into one real store actor (its unchanged run loop polled on the simulator's paused runtime); every reply is compared with a sequential model applied in send order: handle counting, close result, gates for not-open / sync-off / read-only, sticky sync, FIFO visibility, get-many snapshots consumed after later writes, shutdown returning a store (and a disk image) with every acknowledged write; the model also predicts get_state (handles, sync, subscriber count), set/get download policy, register/list useful peers, has-news, the lists of documents and authors, the content-hash report and author-key import/export/delete (a local write needs its author's key); documents may start read-only; a third of the disk-backed runs end in a crash judged against per-request snapshots; faults: reply receivers dropped before the answer (for reads and, less often, for state-changing requests, which must still take effect), streams dropped, flush timer firing between batches, shutdown with requests queued behind it.",
             "Because the inbox is FIFO the linearizability check degenerates to replay of the sequential model in send order. drop_replica with more than one handle is not generated (the statement does not define its effect on the handle count).", "5 C14"),
 })
 
